@@ -301,7 +301,7 @@ class SplitIndexer(Indexer):
             self.data = data = container
             data.clear()
         for CAS, split in zip(self._chemicals.CASs, old_data):
-            if CAS in chemicals: data.dct[chemicals.index(CAS)] = split
+            if split and CAS in chemicals: data.dct[chemicals.index(CAS)] = split
         self._chemicals = chemicals
         return old_data
     
